@@ -1,39 +1,101 @@
 ---------------------------- MODULE TraceReplica ----------------------------
 (* Trace validation for C19.  The lines are the concatenated logs of several  *)
 (* OS processes that executed the same seeded workload from the same genesis  *)
-(* (fresh Go map seeds; GOMAXPROCS / GOGC varied), plus an importer process   *)
-(* started from the state one of them exported.                               *)
-(*  block    : [r, role, blk, h, app, txs, ev]   per-block digests            *)
+(* (fresh Go map seeds; GOMAXPROCS / GOGC varied), plus importer processes    *)
+(* started from the state one of them exported.  Every operation is a signed  *)
+(* transaction delivered through FinalizeBlock + Commit.                      *)
+(*  block    : [r, role, blk, h, app, txs, ng, stale, txb, ev]                *)
+(*             per-block digests; txs[i] = digest of (code, codespace, gas     *)
+(*             wanted, gas used, data, events) of transaction i, ng[i] the     *)
+(*             same without the gas used, txb = digest of the signed bytes     *)
+(*  restart  : [r, role, blk]  a "restarter" discarded its application object  *)
+(*             and re-opened one over the same database before block blk      *)
 (*  export   : [r, blk, mods]                    per-module hash of the       *)
 (*                                               exported genesis             *)
 (*  imported : [r, blk, mods]                    module state reported by the *)
 (*                                               importer right after import  *)
-(* Replicas must agree bit for bit on app hash, every transaction result and  *)
-(* the block events, and on every module of every export.  The importer must  *)
-(* produce the same transaction results and events for every later block.     *)
+(* Roles: "replica", "restarter" (loses everything in memory at some blocks), *)
+(* "proposer" (also runs CheckTx / PrepareProposal / ProcessProposal) are     *)
+(* FULL replicas: they must agree bit for bit on app hash, every transaction  *)
+(* result and the block events, and on every module of every export.  An      *)
+(* "importer" must produce the same transaction results and events for every  *)
+(* later block.                                                               *)
 (* Module-level differences between the importer and the exporter are         *)
 (* printed (<<"IMPORT-DIFF", blk, modules>>) and classified field by field by  *)
 (* the orchestrator (known re-anchored heights are listed findings).          *)
+(* Known (FALSE in TraceReplica.cfg = the rule of the property): when TRUE,   *)
+(* the two listed deviations are tolerated and printed (<<"KNOWN-DEV", ..>>); *)
+(* both concern the GAS USED only - code, codespace, gas wanted, data and     *)
+(* events (digest ng) must still agree:                                       *)
+(*  "stale-route-gas"  a transaction that names the pool id of a reverted     *)
+(*                     pool creation (index listed in "stale" by the first    *)
+(*                     full replica): warm and cold nodes may differ          *)
+(*  "import-gas"       an importer against the full replicas (the raw store   *)
+(*                     layout is not preserved by export/import); importers   *)
+(*                     of one export must still agree among themselves        *)
+(* and one concerns an importer's whole remaining history:                    *)
+(*  "import-protorev"  the protorev post handler back-runs a transaction on   *)
+(*                     the full replicas and not on the importer, or vice     *)
+(*                     versa, or through other pools ("backrun" lists the     *)
+(*                     transactions it back-ran on the reporting node):       *)
+(*                     from that block on the importer's state legitimately   *)
+(*                     differs and nothing more is demanded of it (variable   *)
+(*                     off); the orchestrator then takes another import point *)
 EXTENDS Integers, Sequences, FiniteSets, TraceLib
 
-VARIABLES l, canon, canonExport, canonImp, nblocks, nimports
+CONSTANT Known
+
+VARIABLES l, canon, canonExport, canonImp, nblocks, nimports, nrestarts, off
 
 Ev == Log[l + 1]
 
 DiffMods(a, b) == {m \in DOMAIN a \cup DOMAIN b : m \notin DOMAIN a \/ m \notin DOMAIN b \/ a[m] # b[m]}
 
+Full(role) == role \in {"replica", "restarter", "proposer"}
+
 TraceInit == /\ HWInit /\ l = 0 /\ canon = <<>> /\ canonExport = <<>> /\ canonImp = <<>> /\ nblocks = 0 /\ nimports = 0
+             /\ nrestarts = 0 /\ off = {}
 
 TCfg == /\ l < NLines /\ Ev.e = "cfg"
-        /\ UNCHANGED <<canon, canonExport, canonImp, nblocks, nimports>>
+        /\ Chk("role known", Full(Ev.role) \/ Ev.role = "importer")
+        /\ UNCHANGED <<canon, canonExport, canonImp, nblocks, nimports, nrestarts, off>>
+
+StaleIdx(c) == {c.stale[j] : j \in 1..Len(c.stale)}
+
+\* transaction i of the reporting node against the reference
+TxSame(c, i) == Ev.txs[i] = c.txs[i]
+TxStaleDev(c, i) == Known /\ i \in StaleIdx(c) /\ Ev.ng[i] = c.ng[i]
+TxImportDev(c, i) == Known /\ Ev.role = "importer" /\ Ev.ng[i] = c.ng[i]
+TxsAgree(c) == /\ Len(Ev.txs) = Len(c.txs)
+               /\ \A i \in 1..Len(Ev.txs) :
+                    \/ TxSame(c, i)
+                    \/ TxStaleDev(c, i) /\ PrintT(<<"KNOWN-DEV", "stale-route-gas", Ev.blk, i, Ev.r, Ev.role>>)
+                    \/ TxImportDev(c, i) /\ PrintT(<<"KNOWN-DEV", "import-gas", Ev.blk, i, Ev.r, Ev.role>>)
+
+IdxSet(q) == {q[j] : j \in 1..Len(q)}
+\* the importer and the reference disagree on a transaction that protorev back-ran on either of them
+\* (back-run on one side only, or through different pools)
+BackrunDev(c) == /\ Known /\ Ev.role = "importer" /\ Len(Ev.ng) = Len(c.ng)
+                 /\ \E i \in 1..Len(Ev.ng) : Ev.ng[i] # c.ng[i] /\ i \in IdxSet(Ev.backrun) \cup IdxSet(c.backrun)
+
+\* an importer that has left the common history by the listed protorev deviation: nothing more is demanded
+TBlockOff == /\ l < NLines /\ Ev.e = "block" /\ Ev.r \in off
+             /\ UNCHANGED <<canon, canonExport, canonImp, nblocks, nimports, nrestarts, off>>
+TBlockDev == /\ l < NLines /\ Ev.e = "block" /\ Ev.r \notin off /\ Ev.blk \in DOMAIN canon /\ BackrunDev(canon[Ev.blk])
+             /\ PrintT(<<"KNOWN-DEV", "import-protorev", Ev.blk, Ev.r, Ev.role>>)
+             /\ off' = off \cup {Ev.r}
+             /\ UNCHANGED <<canon, canonExport, canonImp, nblocks, nimports, nrestarts>>
 
 \* first replica to report a block defines the reference; everybody else must match
-TBlock == /\ l < NLines /\ Ev.e = "block"
+TBlock == /\ l < NLines /\ Ev.e = "block" /\ Ev.r \notin off
+          /\ ~(Ev.blk \in DOMAIN canon /\ BackrunDev(canon[Ev.blk]))
           /\ IF Ev.blk \notin DOMAIN canon
-             THEN /\ Chk("first report of a block comes from a full replica", Ev.role = "replica")
+             THEN /\ Chk("first report of a block comes from a full replica", Full(Ev.role))
                   /\ canon' = [b \in DOMAIN canon \cup {Ev.blk} |->
-                                  IF b = Ev.blk THEN [app |-> Ev.app, txs |-> Ev.txs, ev |-> Ev.ev, h |-> Ev.h] ELSE canon[b]]
-             ELSE /\ Chk("transaction results identical", Ev.txs = canon[Ev.blk].txs)
+                                  IF b = Ev.blk THEN [app |-> Ev.app, txs |-> Ev.txs, ng |-> Ev.ng, stale |-> Ev.stale, backrun |-> Ev.backrun, txb |-> Ev.txb,
+                                                      ev |-> Ev.ev, h |-> Ev.h] ELSE canon[b]]
+             ELSE /\ Chk("same signed transactions fed to every node", Ev.txb = canon[Ev.blk].txb)
+                  /\ Chk("transaction results identical", TxsAgree(canon[Ev.blk]))
                   /\ Chk("block events identical", Ev.ev = canon[Ev.blk].ev)
                   /\ Chk("block height identical", Ev.h = canon[Ev.blk].h)
                   /\ Chk("committed state (app hash) identical", Ev.role = "importer" \/ Ev.app = canon[Ev.blk].app)
@@ -42,15 +104,23 @@ TBlock == /\ l < NLines /\ Ev.e = "block"
           \* initialised from the SAME export must commit bit-identical state
           /\ IF Ev.role = "importer"
              THEN IF Ev.blk \notin DOMAIN canonImp
-                  THEN canonImp' = [b \in DOMAIN canonImp \cup {Ev.blk} |-> IF b = Ev.blk THEN Ev.app ELSE canonImp[b]]
-                  ELSE /\ Chk("two importers of one export commit identical state (app hash)", Ev.app = canonImp[Ev.blk])
+                  THEN canonImp' = [b \in DOMAIN canonImp \cup {Ev.blk} |-> IF b = Ev.blk THEN [app |-> Ev.app, txs |-> Ev.txs] ELSE canonImp[b]]
+                  ELSE /\ Chk("two importers of one export commit identical state (app hash)", Ev.app = canonImp[Ev.blk].app)
+                       /\ Chk("importers of one export: transaction results identical", Ev.txs = canonImp[Ev.blk].txs)
                        /\ UNCHANGED canonImp
              ELSE UNCHANGED canonImp
           /\ nblocks' = nblocks + 1
-          /\ UNCHANGED <<canonExport, nimports>>
+          /\ UNCHANGED <<canonExport, nimports, nrestarts, off>>
+
+\* a restart is not part of the replicated history: it changes nothing any other line is compared with
+TRestart == /\ l < NLines /\ Ev.e = "restart"
+            /\ Chk("only a restarter restarts", Ev.role = "restarter")
+            /\ nrestarts' = nrestarts + 1
+            /\ UNCHANGED <<canon, canonExport, canonImp, nblocks, nimports, off>>
 
 TExport == /\ l < NLines /\ Ev.e = "export"
-           /\ IF Ev.role = "replica"
+           /\ IF Ev.r \in off THEN UNCHANGED canonExport ELSE
+              IF Full(Ev.role)
               THEN IF Ev.blk \notin DOMAIN canonExport
                    THEN canonExport' = [b \in DOMAIN canonExport \cup {Ev.blk} |-> IF b = Ev.blk THEN Ev.mods ELSE canonExport[b]]
                    ELSE /\ Chk("exports of two replicas identical", DiffMods(Ev.mods, canonExport[Ev.blk]) = {})
@@ -58,16 +128,16 @@ TExport == /\ l < NLines /\ Ev.e = "export"
               ELSE /\ Chk("exporter's final export known", Ev.blk \in DOMAIN canonExport)
                    /\ PrintT(<<"IMPORT-DIFF", "final", Ev.blk, DiffMods(Ev.mods, canonExport[Ev.blk])>>)
                    /\ UNCHANGED canonExport
-           /\ UNCHANGED <<canon, canonImp, nblocks, nimports>>
+           /\ UNCHANGED <<canon, canonImp, nblocks, nimports, nrestarts, off>>
 
 TImported == /\ l < NLines /\ Ev.e = "imported"
              /\ Chk("import point was exported by a replica", Ev.blk \in DOMAIN canonExport)
              /\ PrintT(<<"IMPORT-DIFF", "at-import", Ev.blk, DiffMods(Ev.mods, canonExport[Ev.blk])>>)
              /\ nimports' = nimports + 1
-             /\ UNCHANGED <<canon, canonExport, canonImp, nblocks>>
+             /\ UNCHANGED <<canon, canonExport, canonImp, nblocks, nrestarts, off>>
 
-TraceNext == (TCfg \/ TBlock \/ TExport \/ TImported) /\ l' = l + 1
-TraceSpec == TraceInit /\ [][TraceNext]_<<l, canon, canonExport, canonImp, nblocks, nimports>>
+TraceNext == (TCfg \/ TBlock \/ TBlockOff \/ TBlockDev \/ TRestart \/ TExport \/ TImported) /\ l' = l + 1
+TraceSpec == TraceInit /\ [][TraceNext]_<<l, canon, canonExport, canonImp, nblocks, nimports, nrestarts, off>>
 Mark == HWMark(l)
 Accepted == HWAccepted
 =============================================================================
